@@ -790,7 +790,8 @@ class SelectRandomly(AlgoStack):
 
     def __call__(self, target):
         if "selected" in target.temp:
-            sel = target.temp["selected"]
+            # may be a pandas Index (SelectAll(include_no_data=True)): random.sample needs a sequence
+            sel = list(target.temp["selected"])
         else:
             sel = list(target.universe.columns)
 
